@@ -7,6 +7,7 @@
      FE lx ly lz hx hy hz              for_each
      IT2 dx dy | IT3 dx dy dz          iterator traversal
      AR dx dy dz n (x y z v)*n         ActualArray3D clear(0), n sets, then get over [-2,d+1]^3
+     RP dx dy dz rx ry rz              Array3DRepeater over [-2, 2r+2)^3
      SH dx dy dz sx sy sz | SB dx dy dz lx ly lz hx hy hz | AC dx dy dz seed | MS dx dy dzs n seed
      VR dx dy dz seed bx by bz ex ey ez   getValueRange
      BG dx dy dz x y z v idx           one set/get in a >2^32-cell byte array (lazily mapped memory) *)
@@ -132,6 +133,10 @@ let () =
         let d = (ios dx, ios dy, ios dz) in let (dx, dy, dz) = d in
         let base = as_arr (filled d (fun i -> 1 + i)) in
         show_arr (shifted base (v3 (ios sx, ios sy, ios sz))) (box3 (-1, dx + 1) (-1, dy + 1) (-1, dz + 1)) true
+      | ["RP"; dx; dy; dz; rx; ry; rz] ->
+        let d = (ios dx, ios dy, ios dz) and (rx, ry, rz) = (ios rx, ios ry, ios rz) in
+        let base = as_arr (filled d (fun i -> 1 + i)) in
+        show_arr (repeater base (v3 (rx, ry, rz))) (box3 (-2, 2 * rx + 2) (-2, 2 * ry + 2) (-2, 2 * rz + 2)) true
       | ["SB"; dx; dy; dz; lx; ly; lz; hx; hy; hz] ->
         let d = (ios dx, ios dy, ios dz) in
         let lo = (ios lx, ios ly, ios lz) and hi = (ios hx, ios hy, ios hz) in
